@@ -46,6 +46,10 @@ var c16defects = []c16defect{
 		c.Services = append(c.Services, Service{Name: "svShared", Constructor: P("NewT"), Args: []any{"@svCtx"}, Scope: P("shared")},
 			Service{Name: "svCtx", Constructor: P("NewT"), Scope: P("contextual")})
 	}, `"svShared"`},
+	{"ms-shared-service", "services", func(c *Cfg) {
+		c.Services = append(c.Services, Service{Name: "shHandler", Constructor: P("NewT"), Args: []any{"@shRepo"}, Scope: P("shared")},
+			Service{Name: "shRepo", Constructor: P("NewT"), Args: []any{"@lostDb"}, Scope: P("non_shared")})
+	}, `"lostDb"`},
 	{"scope-next-to-missing", "scope", func(c *Cfg) {
 		c.Services = append(c.Services, Service{Name: "smShared", Constructor: P("NewT"), Args: []any{"@aaaMissing", "@smCtx", "@zzzMissing", "%aaaGone%"}, Scope: P("shared")},
 			Service{Name: "smCtx", Constructor: P("NewT"), Scope: P("contextual")})
@@ -53,6 +57,17 @@ var c16defects = []c16defect{
 	{"grammar", "grammar", func(c *Cfg) {
 		c.Services = append(c.Services, Service{Name: "1bad", Constructor: P("NewT")})
 	}, `"1bad"`},
+}
+
+// c16classes: the classes of diagnostics a defect produces
+func c16classes(d c16defect) []string {
+	switch d.id {
+	case "scope-next-to-missing":
+		return []string{"scope", "services", "params"}
+	case "ms-shared-service":
+		return []string{"services"}
+	}
+	return []string{d.class}
 }
 
 var c16prefix = map[string]string{
@@ -80,7 +95,7 @@ func init() {
 	Register(&Check{
 		ID:    "C16",
 		Level: "exploration",
-		Rule: "all subsets of size <= k (k=5 quick, all 1024 subsets thorough) of 11 injected defects {missing param x3 positions, missing service x3 positions, param cycle, service cycle, scope violation, scope violation on a service that also has missing dependencies, grammar violation} x the 4 combinations of --ignore-missing-params / --ignore-missing-services, each with and without --stub; " +
+		Rule: "all subsets of size <= k (k=5 quick, all 1024 subsets thorough) of 12 injected defects {missing param x3 positions, missing service x3 positions, param cycle, service cycle, scope violation, scope violation on a service that also has missing dependencies, grammar violation} x the 4 combinations of --ignore-missing-params / --ignore-missing-services, each with and without --stub; " +
 			"non-trivial = at least one defect and at least one flag set; distinct = distinct (defect set, flags)",
 		Assumptions: []string{
 			"diagnostic classes are told apart by the rule prefix the tool prints; lines are compared as ordered lists between flag combinations",
@@ -190,6 +205,18 @@ func init() {
 							fl := strings.Join(flags, " ")
 							if strings.Join(want, "\n") != strings.Join(lines, "\n") {
 								c.Violation("flag-changes-other-diagnostics:"+fl, fmt.Sprintf("defects %s under %s: expected the no-flag diagnostics minus the ignored class(es):\n%s\nobserved:\n%s", desc, fl, strings.Join(want, "\n"), strings.Join(lines, "\n")), fm, map[string]any{"flags": flags})
+							}
+							// independent of the tool's own no-flag report: accepted iff every injected defect is of an ignored class
+							indep := true
+							for _, i := range sel {
+								for _, cl := range c16classes(c16defects[i]) {
+									if !(cl == "params" && ignore[c16prefix["params"]] || cl == "services" && ignore[c16prefix["services"]]) {
+										indep = false
+									}
+								}
+							}
+							if indep != (br.Exit == 0) {
+								c.Violation("flag-verdict-vs-injected-defects:"+fl, fmt.Sprintf("defects %s under %s: every injected defect is of an ignored class = %v, exit %d\n%s", desc, fl, indep, br.Exit, strings.Join(lines, "\n")), fm, map[string]any{"flags": flags})
 							}
 							wantAccept := len(want) == 0
 							if wantAccept != (br.Exit == 0) {
